@@ -33,7 +33,7 @@ class Explorer:
 
     def __init__(self, timeout_ms=10000, seed=0):
         self.solver = z3.Solver()
-        self.solver.set('timeout', timeout_ms)
+        self.solver.set('timeout', timeout_ms); self.timeout_ms = timeout_ms
         if seed: self.solver.set('random_seed', seed)
         self.trail = []          # [choice, n, event_index, exhaustive, any_feasible_so_far]
         self.levels = 0
@@ -101,6 +101,7 @@ class VM:
         self.hooks = {}        # callee shape -> python callable (harness-installed environment stubs)
         self.domains = {}      # z3 term id -> set of values still possible on this path (implied by pc)
         self.truths = {}       # z3 Bool term id -> truth value implied by pc
+        self.keep = []         # terms whose ids key the two maps above stay referenced (z3 reuses the ids of freed ASTs)
         self.statics = {}
         self.trace = None
         self.models = None     # set by std.install
@@ -179,12 +180,11 @@ class VM:
         cond = z3.simplify(cond)
         if z3.is_true(cond): return True
         if z3.is_false(cond): return False
+        if z3.is_not(cond):
+            return not self.branch(cond.arg(0))
         cid = cond.get_id()
         t = self.truths.get(cid)
         if t is not None: return t
-        if z3.is_not(cond):
-            t = self.truths.get(cond.arg(0).get_id())
-            if t is not None: return not t
         # equality of a tracked term with a constant
         if z3.is_eq(cond):
             a, b = cond.arg(0), cond.arg(1)
@@ -201,7 +201,7 @@ class VM:
                     if not (da & db): return False
                     if len(da) == 1 and da == db: return True
         r = self.choose([cond, z3.Not(cond)]) == 0
-        self.truths[cid] = r
+        self.truths[cid] = r; self.keep.append(cond)
         if z3.is_eq(cond):
             a, b = cond.arg(0), cond.arg(1)
             if z3.is_bv_value(a): a, b = b, a
@@ -225,9 +225,21 @@ class VM:
         """free n-way choice made by a harness or a model (shape decisions)"""
         return self.choose([None] * n, exhaustive=False, note=note)
 
-    def check_sat(self, *extra):
-        """is pc ∧ extra satisfiable?  returns (z3 result, model|None)"""
+    def check_sat(self, *extra, oneshot=False):
+        """is pc ∧ extra satisfiable?  returns (z3 result, model|None).  `oneshot` re-states the whole path condition in a
+        fresh solver: z3 then applies its tactic pipeline (bit-blasting for FP/BV), which its incremental core does not --
+        measured 18 s vs 1.5 s on the build/knock query"""
         ex = self.ex
+        if oneshot:
+            s = z3.Solver(); s.set('timeout', ex.timeout_ms)
+            for c in self.pc: s.add(c)
+            for e in extra: s.add(e)
+            st = ex.stats; t = time.time()
+            r = s.check()
+            st.solver_s += time.time() - t; st.queries += 1
+            if r == z3.sat: st.sat += 1; return r, s.model()
+            if r == z3.unsat: st.unsat += 1; return r, None
+            # fall through to the incremental solver before giving up
         ex.solver.push()
         try:
             for e in extra: ex.solver.add(e)
@@ -247,7 +259,7 @@ class VM:
             raise Unmodelled('unknown from solver on ' + what)
         p = z3.simplify(prop)
         if z3.is_true(p): return None
-        r, m = self.check_sat(z3.Not(p))
+        r, m = self.check_sat(z3.Not(p), oneshot=_has_fp(p))
         if r == z3.unsat: return None
         if r == z3.sat: return Violation(what, m, self)
         raise Unmodelled('unknown from solver on ' + what)
@@ -1187,6 +1199,14 @@ class VM:
 
 _SUBST_RX = {}
 _EQ_CACHE = {}
+
+
+def _has_fp(t, depth=0):
+    if z3.is_fp(t): return True
+    if depth > 6: return False
+    try: return any(_has_fp(c, depth + 1) for c in t.children())
+    except Exception: return False
+
 
 
 def _or_eq(v, vid, ks):
